@@ -135,12 +135,12 @@ Qed.
 Theorem scenario_fmt_shape cfg st id all_steps oe eff own st' res fld ev :
   run_scenario cfg st id all_steps oe eff own = (st', res, fld, ev) ->
   exists n, n <= length all_steps /\ length (sr_steps res) = length all_steps /\
-    fmt_of ev = announcement (c_expr cfg eff || c_show_skipped cfg) id all_steps
+    fmt_of ev = announcement (sel cfg eff || c_show_skipped cfg) id all_steps
                 ++ processed n all_steps (sr_steps res) /\
-    (c_expr cfg eff = false -> n = 0).
+    (sel cfg eff = false -> n = 0).
 Proof.
   unfold run_scenario.
-  destruct (negb (c_dry cfg) && c_expr cfg eff).
+  destruct (negb (c_dry cfg) && sel cfg eff).
   - destruct (run_tag_hooks cfg (push st) HBeforeTag own) as [[sa b1] e1] eqn:E1. apply run_tag_hooks_fmt in E1.
     destruct (run_hook cfg sa HBeforeScenario id) as [[sb b2] e2] eqn:E2. apply run_hook_fmt in E2.
     match goal with |- context [scenario_steps ?a ?b ?c ?d ?e ?f ?g ?h] =>
